@@ -129,3 +129,7 @@ def check(ctx):
                 sites=[f"bb{sw.bb}" for sw, _ in eq], site_key="reuse", witness=None if p is None else {"path": b.describe_path(p)})
         gt = ctx.cmp_tests(b, "Gt", lhs="call:*::PartialBlockHeader::height", rhs="call:*::expiration", depth=1)
         ctx.test_leads_to_error("6.expired-pre-checked-rejects", b, gt, truth=True, detail="an expired pre-checked transaction is refused")
+
+    # -- 7. production and validation report the same events: nothing may reject a transaction after its events were recorded --
+    from exec_common import no_rejection_after_events
+    no_rejection_after_events(ctx, "7")
